@@ -169,7 +169,36 @@ Fixpoint params_ok (pv sv bound : N) (fl : list (N * nat)) (sc : list N) (ps : l
   | p :: ps' => fresh_id pv sv bound fl sc p && params_ok pv sv bound fl (p :: sc) ps'
   end.
 
-(* the outer statements between `print` and `start`: global values and functions.
+(* the body of a function: statements of the fragment and, at its top level, definitions of LOCAL functions
+   f :: fn ... end.  A local function sees what is in scope where it is defined -- the parameters and locals of
+   the enclosing function so far (mutable ones too: it reads and assigns the same variables), the globals, the
+   callable functions and itself -- and can be called by name after its definition, from nested blocks and from
+   later local functions too.  The result is the scope and the callable functions at the end of the body. *)
+Fixpoint frag_body (pv sv bound : N) (k : nat) (fl : list (N * nat)) (sc : list N) (ss : list stmt) {struct k}
+  : option (list N * list (N * nat)) :=
+  match k with
+  | O => None
+  | S k =>
+      match ss with
+      | [] => Some (sc, fl)
+      | s :: rest =>
+          match s with
+          | SDefinition _ fv _ _ (EFunction _ params _ body _ _) _ =>
+              let ps := param_ids params in
+              let fl' := (fv, length ps) :: fl in
+              if fresh_id pv sv bound fl sc fv && params_ok pv sv bound fl' sc ps
+                 && is_some (frag_body pv sv bound k fl' (rev ps ++ sc) body)
+              then frag_body pv sv bound k fl' sc rest else None
+          | _ =>
+              match frag_stmt pv sv bound fl k sc s with
+              | Some sc' => frag_body pv sv bound k fl sc' rest
+              | None => None
+              end
+          end
+      end
+  end.
+
+(* the outer statements: global values and functions.
    scg = the global values so far, fl = the functions so far; a function sees the earlier globals and
    functions and itself (recursion) *)
 Fixpoint frag_items (pv sv bound : N) (k : nat) (scg : list N) (fl : list (N * nat)) (items : list stmt)
@@ -182,7 +211,7 @@ Fixpoint frag_items (pv sv bound : N) (k : nat) (scg : list N) (fl : list (N * n
           let ps := param_ids params in
           let fl' := (fv, length ps) :: fl in
           if fresh_id pv sv bound fl scg fv && params_ok pv sv bound fl' scg ps
-             && is_some (frag_stmts pv sv bound fl' k (rev ps ++ scg) body)
+             && is_some (frag_body pv sv bound k fl' (rev ps ++ scg) body)
           then frag_items pv sv bound k scg fl' rest else None
       | SDefinition _ _ _ _ _ _ =>
           match frag_stmt pv sv bound fl k scg s with
@@ -193,7 +222,8 @@ Fixpoint frag_items (pv sv bound : N) (k : nat) (scg : list N) (fl : list (N * n
       end
   end.
 
-(* STAGE 4b (4a + outer definitions in any order the resolver allows, also after `start`; 4a = 3b + early return
+(* STAGE 4c (4b + LOCAL FUNCTIONS: closures over the variables of the enclosing function, mutable ones included,
+   called by name, see frag_body; 4b = 4a + outer definitions in any order the resolver allows, also after `start`; 4a = 3b + early return
    `ret e`; 3b = 3a + top-level functions and their calls, recursion included):
    the outer statements are  `print` external, then global definitions in the order the resolver gives them;
    `start :: fn do ... end` is one of them (a function without parameters, anywhere in the list) and is called after
@@ -205,15 +235,22 @@ Fixpoint frag_items (pv sv bound : N) (k : nat) (scg : list N) (fl : list (N * n
      - definitions (constant or mutable) of int/bool-valued expressions, expression statements, nested blocks,
      - assignments  x = e, x += e, x -= e, x *= e  to variables in scope (parameters, locals and global values),
      - `ret e` anywhere in a function or in start (inside if-branches and loops too): the call ends with the value of e,
+     - at the TOP LEVEL of a function body (not inside a nested block, branch or loop): LOCAL FUNCTIONS
+         lf :: fn p1: T1, ..., pn: Tn -> T do ... end
+       whose body is again a function body of the fragment (local functions nested to any depth); it sees the variables
+       of the enclosing function(s) that are in scope at its definition (parameters, constant and MUTABLE locals, which it
+       may assign: the closure and the enclosing function share the variable, each sees the later assignments of the
+       other; every activation has its own locals), the global values, the functions visible there and itself;
+       it is called by name, from the rest of the enclosing body and from the local functions defined later in it,
      - loops `loop c do ... end` with break and continue; the condition c contains no if-expression
        (noexit_expr; since /repo fcfe8d3 the type checker rejects break/continue in a loop condition, so
        this is implied by acceptance for what matters: no break/continue can leave the condition);
    expressions are int and bool literals, reads of variables in scope, + - *, the six comparisons,
-   <=> (assert-equal), and/or/not, unary minus, calls print(e), calls f(e1, ..., en) of top-level functions by
-   name, and if/elif/else expressions and statements whose branches are statement lists.
-   NOT in the fragment: `ret` without a value (it returns Sylt's nil, the table __NIL), functions as values
-   (closures, lambdas, nested functions), blobs, tuples, lists,
-   enums/case, floats, strings, division. *)
+   <=> (assert-equal), and/or/not, unary minus, calls print(e), calls f(e1, ..., en) of functions by
+   name (top-level or local), and if/elif/else expressions and statements whose branches are statement lists.
+   NOT in the fragment: `ret` without a value (it returns Sylt's nil, the table __NIL), functions as VALUES
+   (a function passed as an argument, returned, stored in a variable or a lambda expression: a function name is only
+   ever called), blobs, tuples, lists, enums/case, floats, strings, division. *)
 Definition frag (k : nat) (r : resolved) : bool :=
   let bound := N.of_nat (length (r_vars r)) + 1 in
   match r_stmts r with
